@@ -171,8 +171,13 @@ func containerSizes(t *ref.Type, tier Tier) []int {
 	if t.Kind != ref.KMap {
 		s = append(s, 1100) // wide: more elements than any per-call budget (depth bound, small scratch blocks)
 	}
-	if tier == Thorough && t.Elem != nil && t.Elem.Kind.FixedWidth() > 0 && t.Kind != ref.KMap {
-		s = append(s, 70000) // more than 65535 elements
+	if t.Elem != nil && t.Elem.Kind.FixedWidth() > 0 && t.Kind != ref.KMap {
+		// exact multiples of the block sizes bulk encoders/decoders may work in (2 KB = 256 i64 / 512 i32 /
+		// 1024 i16), one more, and an odd count (element pairs written with wide stores)
+		s = append(s, 256, 257, 512, 1024, 1025)
+		if tier == Thorough {
+			s = append(s, 255, 511, 513, 1023, 2047, 2048, 2049, 4096, 65535, 65536, 70000) // and beyond 65535 elements
+		}
 	}
 	if tier == Thorough {
 		if t.Kind == ref.KMap {
